@@ -20,10 +20,12 @@ import (
 	"errors"
 	"fmt"
 	"os"
+	"reflect"
 	"sort"
 	"strings"
 	"sync"
 	rt "time"
+	"unsafe"
 
 	"ergo.services/ergo/act"
 	"ergo.services/ergo/gen"
@@ -430,13 +432,22 @@ func init() {
 		requests := []string{"process.RemoteSpawn", "process.RemoteSpawnRegister", "node.Spawn", "node.ApplicationStart"}
 		for _, fname := range []string{"all", "no-spawn", "no-start", "no-neither"} {
 			for _, table := range tables {
-				for _, expose := range []int{0, 1, 2, 3} {
+				for _, expose := range []int{0, 1, 2, 3, 4} {
 					for _, req := range requests {
 						fname, table, expose, req := fname, table, expose, req
+						// expose == 4: a hostile requester that ignores the flags the acceptor announced (the
+						// requester's copy of the peer's flags is overwritten): the acceptor's own check must hold
+						hostile := expose == 4
+						if hostile {
+							expose = 0
+							if fname == "all" || (table != "anyone" && table != "for-a") || strings.HasPrefix(req, "process.") {
+								continue
+							}
+						}
 						flagsB := flagSets[fname]
 						isStart := req == "node.ApplicationStart"
 						r.Executions++
-						desc := fmt.Sprintf("%s, B's flags %s, table %s, exposure spawn=%v start=%v", req, fname, table, expose&1 != 0, expose&2 != 0)
+						desc := fmt.Sprintf("%s, B's flags %s, table %s, exposure spawn=%v start=%v, requester ignores the peer's flags: %v", req, fname, table, expose&1 != 0, expose&2 != 0, hostile)
 						c15mu.Lock()
 						c15Spawned = nil
 						c15mu.Unlock()
@@ -481,6 +492,14 @@ func init() {
 							nw.connect()
 							if nw.ex.Failed() {
 								return
+							}
+							if hostile {
+								f := reflect.ValueOf(nw.pa).Elem().FieldByName("peer_flags")
+								if !f.IsValid() {
+									nw.ex.Fail("harness", "proto connection has no field peer_flags")
+									return
+								}
+								*(*gen.NetworkFlags)(unsafe.Pointer(f.UnsafeAddr())) = gen.NetworkFlags{Enable: true, EnableRemoteSpawn: true, EnableRemoteApplicationStart: true}
 							}
 							nw.ex.Thread("REQ", func() {
 								switch req {
